@@ -596,11 +596,16 @@ pub fn cmd_incr(interp: &mut Interp, _: ContextID, argv: &[Value]) -> MoltResult
         1
     };
 
-    let new_value = increment
-        + interp
-            .var(&argv[1])
-            .and_then(|val| Ok(val.as_int()?))
-            .unwrap_or_else(|_| 0);
+    // An unset variable counts as 0; a variable that holds a non-integer is an error.
+    let old_value = match interp.var(&argv[1]) {
+        Ok(val) => val.as_int()?,
+        Err(_) => 0,
+    };
+
+    let new_value = match old_value.checked_add(increment) {
+        Some(int) => int,
+        None => return molt_err!("integer overflow"),
+    };
 
     interp.set_var_return(&argv[1], new_value.into())
 }
